@@ -122,3 +122,226 @@ pub fn c09_auth(cx: &mut Ctx) {
         }
     }
 }
+
+/// C10 — a cancel request reaches only the requester's own running server session.
+///
+/// Ground truth: every CancelRequest packet that arrives at a mock backend (host, pid, key) and
+/// every cancel step of a scripted client (the key it carried, when it was sent, when PgCat
+/// closed that connection). A packet at a backend is justified only by a cancel step carrying
+/// the key PgCat issued to some client X, sent before it, while X may have been holding exactly
+/// that backend session (over-approximated hold intervals, so that the inherent race at the end
+/// of a transaction is never judged). Every step justifies at most one packet.
+pub fn c10_cancel(cx: &mut Ctx) {
+    let h = cx.h;
+    let lat = cx.spec.net.latency_ms.1 + cx.spec.net.jitter_ms;
+    let slack_us = (50 + 8 * lat) * 1000;
+    // key issued by PgCat -> client
+    let mut owner: BTreeMap<(i32, i32), u32> = BTreeMap::new();
+    for c in h.clients.values() {
+        if let Some(k) = c.key {
+            owner.insert(k, c.id);
+        }
+    }
+    // hold intervals per client: (backend conn idx or None = unknown, from_us, to_us)
+    let mut holds: BTreeMap<u32, Vec<(Option<usize>, u64, u64)>> = BTreeMap::new();
+    for c in h.clients.values() {
+        if c.database == "pgcat" || c.ready_seq.is_none() {
+            continue;
+        }
+        let session = cx.pool_mode(&c.database, &c.user) == "session";
+        let end_of_client = if c.finished { h_us_of_finish(c) } else { u64::MAX / 4 };
+        let conns_of = |txn: Option<u32>| -> Vec<usize> {
+            let mut v: Vec<usize> = Vec::new();
+            for (ci, bc) in h.backend_conns.iter().enumerate() {
+                if bc.units.iter().any(|u| u.tags.iter().any(|t| t.c == c.id && txn.map(|x| t.t == x).unwrap_or(true))) {
+                    v.push(ci);
+                }
+            }
+            v
+        };
+        let mut out = Vec::new();
+        if session {
+            let first = c.steps.iter().find(|s| s.op == "send" || s.op == "copyin").map(|s| s.start_us);
+            if let Some(f) = first {
+                let cs = conns_of(None);
+                if cs.is_empty() {
+                    out.push((None, f, end_of_client.saturating_add(slack_us)));
+                }
+                for ci in cs {
+                    out.push((Some(ci), f, end_of_client.saturating_add(slack_us)));
+                }
+            }
+        } else {
+            let mut txns: Vec<u32> = c.steps.iter().filter(|s| s.txn > 0).map(|s| s.txn).collect();
+            txns.dedup();
+            for t in txns {
+                let ss: Vec<&StepRec> = c.steps.iter().filter(|s| s.txn == t && s.start_seq > 0).collect();
+                if ss.is_empty() {
+                    continue;
+                }
+                let from = ss[0].start_us;
+                let last = ss[ss.len() - 1];
+                let clean_end = matches!(last.outcome, StepOutcome::Ready(b'I'));
+                let to = if clean_end { last.done_us.saturating_add(slack_us) } else { end_of_client.saturating_add(slack_us) };
+                let cs = conns_of(Some(t));
+                if cs.is_empty() {
+                    out.push((None, from, to));
+                }
+                for ci in cs {
+                    out.push((Some(ci), from, to));
+                }
+            }
+        }
+        holds.insert(c.id, out);
+    }
+    // cancel steps
+    struct CS<'a> {
+        s: &'a StepRec,
+        key: (i32, i32),
+        x: Option<u32>,
+        used: bool,
+    }
+    let mut steps: Vec<CS> = Vec::new();
+    for c in h.clients.values() {
+        for s in &c.steps {
+            if s.op == "cancel" && s.sent.len() >= 16 && s.sent_seq > 0 {
+                let pid = i32::from_be_bytes([s.sent[8], s.sent[9], s.sent[10], s.sent[11]]);
+                let key = i32::from_be_bytes([s.sent[12], s.sent[13], s.sent[14], s.sent[15]]);
+                steps.push(CS { s, key: (pid, key), x: owner.get(&(pid, key)).cloned(), used: false });
+            }
+        }
+    }
+    steps.sort_by_key(|c| c.s.sent_seq);
+    let held = |x: u32, ci: usize, a_us: u64, b_us: u64| -> bool {
+        holds.get(&x).map(|v| v.iter().any(|(c, f, t)| (c.is_none() || *c == Some(ci)) && *f <= b_us && a_us <= *t)).unwrap_or(false)
+    };
+    let holds_anything = |x: u32, a_us: u64, b_us: u64| -> bool { holds.get(&x).map(|v| v.iter().any(|(_, f, t)| *f <= b_us && a_us <= *t)).unwrap_or(false) };
+    let mut cancels: Vec<&crate::world::CancelRec> = h.cancels.iter().collect();
+    cancels.sort_by_key(|r| r.seq);
+    for r in &cancels {
+        cx.probe("c10_cancel_at_backend");
+        // 1. the packet names a backend session of that host, with that session's own key
+        let b = h.backend_conns.iter().enumerate().find(|(_, bc)| bc.kind == "session" && bc.host == r.host && bc.pid == r.pid);
+        let (ci, bc) = match b {
+            Some(x) => x,
+            None => {
+                cx.v("C10", "cancel_target", "C10/cancel_for_nonexistent_session", r.seq, format!("CancelRequest for pid {} arrived at {}, where no such session ever existed", r.pid, r.host));
+                continue;
+            }
+        };
+        if bc.key != r.key {
+            cx.v("C10", "cancel_target", "C10/cancel_with_wrong_server_key", r.seq, format!("CancelRequest for pid {} at {} carried key {} (the session's key is {})", r.pid, r.host, r.key, bc.key));
+            continue;
+        }
+        // 2. justification
+        let mut chosen: Option<usize> = None;
+        let mut seen_valid_unused = false;
+        let mut seen_valid = false;
+        for (i, cs) in steps.iter().enumerate() {
+            if cs.s.sent_seq >= r.seq {
+                break;
+            }
+            let x = match cs.x {
+                Some(x) => x,
+                None => continue,
+            };
+            seen_valid = true;
+            if cs.used {
+                continue;
+            }
+            if cs.s.done_seq > 0 && r.us > cs.s.done_us.saturating_add(slack_us) {
+                continue;
+            }
+            seen_valid_unused = true;
+            if held(x, ci, cs.s.start_us, r.us) {
+                chosen = Some(i);
+                break;
+            }
+        }
+        match chosen {
+            Some(i) => {
+                steps[i].used = true;
+                let x = steps[i].x.unwrap();
+                if r.hit_running {
+                    if r.running_tags.iter().any(|t| t.c == x) {
+                        cx.probe("c10_cancel_hit_own_statement");
+                    } else {
+                        cx.probe("c10_cancel_raced_with_release");
+                    }
+                } else {
+                    cx.probe("c10_cancel_delivered_not_running");
+                }
+            }
+            None => {
+                let who: Vec<u32> = r.running_tags.iter().map(|t| t.c).collect();
+                let (fp, why) = if !seen_valid {
+                    ("C10/cancel_forwarded_for_unknown_key", "no cancel request with a key issued by the pooler had been sent before it".to_string())
+                } else if !seen_valid_unused {
+                    ("C10/cancel_duplicated", "every cancel request sent before it had already produced a packet".to_string())
+                } else {
+                    // classify by the state of the requester named by the nearest candidate
+                    let cand = steps.iter().filter(|cs| cs.s.sent_seq < r.seq && !cs.used && cs.x.is_some()).last().unwrap();
+                    let x = cand.x.unwrap();
+                    let xr = &h.clients[&x];
+                    if xr.finished && h_us_of_finish(xr).saturating_add(slack_us) < cand.s.start_us {
+                        ("C10/cancel_forwarded_for_departed_client", format!("client {} (whose key the request carried) had left {} ms before the request", x, (cand.s.start_us - h_us_of_finish(xr)) / 1000))
+                    } else if holds_anything(x, cand.s.start_us, r.us) {
+                        ("C10/cancel_hit_other_session", format!("client {} was holding a different server session", x))
+                    } else {
+                        ("C10/cancel_forwarded_for_idle_client", format!("client {} held no server connection between the request ({} ms) and the packet ({} ms)", x, cand.s.start_us / 1000, r.us / 1000))
+                    }
+                };
+                cx.v("C10", "cancel_unjustified", fp, r.seq, format!("CancelRequest for backend pid {} at {} (running there: clients {:?}): {}", r.pid, r.host, who, why));
+            }
+        }
+    }
+    // 3. completeness and the "no contact" cases, per step
+    for cs in &steps {
+        let s = cs.s;
+        match cs.x {
+            None => {
+                cx.probe("c10_unknown_key_sent");
+            }
+            Some(x) => {
+                if !cs.used {
+                    if !holds_anything(x, s.start_us.saturating_sub(slack_us), s.done_us.saturating_add(slack_us)) {
+                        let xr = &h.clients[&x];
+                        if xr.finished && h_us_of_finish(xr) < s.start_us {
+                            cx.probe("c10_departed_target_no_contact");
+                        } else {
+                            cx.probe("c10_idle_target_no_contact");
+                        }
+                    }
+                }
+                // X's statement was asleep on a backend from before the request until well after
+                // PgCat closed the cancel connection: the packet must have been delivered there
+                if s.done_seq == 0 || !matches!(s.outcome, StepOutcome::Done) {
+                    continue;
+                }
+                for e in h.stmts.iter() {
+                    if !e.rec.tags.iter().any(|t| t.c == x) {
+                        continue;
+                    }
+                    let ms = match crate::sqlmini::directive(&e.rec.sql, "sim_sleep") {
+                        Some(ms) => ms,
+                        None => continue,
+                    };
+                    let natural_end = e.start_us + ms * 1000;
+                    if e.rec.seq < s.start_seq && e.start_us + 1000 < s.start_us && e.us > s.start_us && natural_end > s.done_us + slack_us {
+                        let bc = &h.backend_conns[e.conn];
+                        let delivered = h.cancels.iter().any(|r| r.host == bc.host && r.pid == bc.pid && r.key == bc.key && r.seq > s.start_seq);
+                        if delivered {
+                            cx.probe("c10_running_statement_cancelled");
+                        } else {
+                            cx.v("C10", "cancel_not_delivered", "C10/cancel_not_delivered", s.sent_seq, format!("client {}'s statement was running on backend pid {} at {} from {} ms (sleep {} ms); a CancelRequest with its key was sent at {} ms and closed at {} ms, but no cancel reached that session", x, bc.pid, bc.host, e.start_us / 1000, ms, s.sent_us / 1000, s.done_us / 1000));
+                        }
+                    }
+                }
+            }
+        }
+    }
+}
+
+fn h_us_of_finish(c: &ClientRec) -> u64 {
+    c.steps.iter().map(|s| s.done_us).max().unwrap_or(c.connect_us).max(c.connect_us)
+}
